@@ -245,6 +245,10 @@ func (s *Session) probeRoot(names []string) ([]fs.DirEntry, error) {
 }
 
 func (s *Session) base() avfs.VFS {
+	if s.ProjFS != nil {
+		return s.ProjFS
+	}
+
 	if s.Base != nil {
 		return s.Base
 	}
